@@ -1,0 +1,57 @@
+//go:build verif
+
+package oned
+
+import "github.com/makiuchi-d/gozxing"
+
+// Re-exports of unexported steps of the UPC/EAN row readers for the /verif correspondence harness
+// (work package rowsrest).  Compiled only with `-tags verif`; nothing here changes behaviour.
+
+func VerifRowsFindStartGuardPattern(row *gozxing.BitArray) ([]int, error) {
+	return upceanReader_findStartGuardPattern(row)
+}
+
+func VerifRowsFindGuardPattern(row *gozxing.BitArray, rowOffset int, whiteFirst bool, pattern []int) ([]int, error) {
+	return upceanReader_findGuardPattern(row, rowOffset, whiteFirst, pattern)
+}
+
+// VerifRowsDecodeDigit returns the best match and the pixels consumed (sum of the four counters).
+func VerifRowsDecodeDigit(row *gozxing.BitArray, rowOffset int, patterns [][]int) (int, int, error) {
+	counters := make([]int, 4)
+	best, e := upceanReader_decodeDigit(row, counters, rowOffset, patterns)
+	if e != nil {
+		return 0, 0, e
+	}
+	w := 0
+	for _, c := range counters {
+		w += c
+	}
+	return best, w, nil
+}
+
+// VerifRowsDecodeMiddle runs decodeMiddle of a fresh EAN-13 / EAN-8 / UPC-E reader.
+func VerifRowsDecodeMiddle(format gozxing.BarcodeFormat, row *gozxing.BitArray, startRange []int) (int, string, error) {
+	var d upceanRowDecoder
+	switch format {
+	case gozxing.BarcodeFormat_EAN_8:
+		d = NewEAN8Reader().(*ean8Reader)
+	case gozxing.BarcodeFormat_UPC_E:
+		d = NewUPCEReader().(*upcEReader)
+	default:
+		d = NewEAN13Reader().(*ean13Reader)
+	}
+	end, res, e := d.decodeMiddle(row, startRange, make([]byte, 0, 13))
+	return end, string(res), e
+}
+
+func VerifRowsExtensionDecodeRow(rowNumber int, row *gozxing.BitArray, rowOffset int) (*gozxing.Result, error) {
+	return NewUPCEANExtensionSupport().decodeRow(rowNumber, row, rowOffset)
+}
+
+func VerifRowsParseExtension5String(raw string) string {
+	return NewUPCEANExtension5Support().parseExtension5String(raw)
+}
+
+func VerifRowsLookupCountryIdentifier(productCode string) string {
+	return eanManufacturerOrgSupportLookupCountryIdentifier(productCode)
+}
